@@ -787,4 +787,358 @@ theorem segRun_resave {e : Enc} {h0 : Bytes} {F : List SecBuf} {lay1 lay1E lay2 
         obtain ⟨lkE, edone⟩ := ih hF (hok.2 _ _ h1) lk h2
         exact ⟨lkE, by rw [edone]; simp⟩
 
+/-- every finished segment is `segFinish` of its ordered segment, started somewhere -/
+theorem SegRun.finished {c : Cls} {e : Enc} {h0 : Bytes} {lay layE : Layout} {ordered ds : List Seg}
+    (run : SegRun c e h0 lay ordered layE ds) :
+    All2 (fun g d => ∃ ss st, d = segFinish c g ss st) ordered ds := by
+  induction run with
+  | nil => exact All2.nil
+  | cons h1 _ ih =>
+    obtain ⟨p, st, _, _, _, ed⟩ := layoutSegment_ok h1
+    exact All2.cons ⟨_, _, ed⟩ ih
+
+theorem applyOut_gen {st st' : WsdSt} {i : Nat} {out : StepOut} (h : applyOut st i out = some st') (j : Nat)
+    (hj : st'.lay.gen[j]? = some true) : st.lay.gen[j]? = some true ∨ j = i := by
+  cases out <;> simp only [applyOut, Option.some.injEq] at h
+  · cases h
+  · subst h
+    simp only at hj
+    by_cases e : i = j
+    · exact Or.inr e.symm
+    · rw [List.getElem?_set_ne e] at hj; exact Or.inl hj
+  · subst h; exact Or.inl hj
+  · subst h
+    simp only at hj
+    by_cases e : i = j
+    · exact Or.inr e.symm
+    · rw [List.getElem?_set_ne e] at hj; exact Or.inl hj
+
+theorem wsdLoop_gen {c : Cls} {g : Seg} {ss : BitVec 64} (l : List (BitVec 16)) {st st' : WsdSt}
+    (h : wsdLoop c g ss l st = .ok (some st')) (j : Nat) (hj : st'.lay.gen[j]? = some true) :
+    st.lay.gen[j]? = some true ∨ ∃ idx ∈ l, idx.toNat = j := by
+  induction l generalizing st with
+  | nil =>
+    simp only [wsdLoop, pure, Except.pure, Except.ok.injEq, Option.some.injEq] at h; subst h; exact Or.inl hj
+  | cons idx rest ih =>
+    simp only [wsdLoop, bind, Except.bind] at h
+    cases h1 : wsdStep c g ss st idx with
+    | error x => rw [h1] at h; cases h
+    | ok r =>
+      rw [h1] at h
+      cases r with
+      | none => cases h
+      | some st1 =>
+        rcases ih h with a | ⟨k, hk, e⟩
+        · obtain ⟨sec, gen, _, _, ha⟩ := wsdStep_ok h1
+          rcases applyOut_gen ha j a with b | b
+          · exact Or.inl b
+          · exact Or.inr ⟨idx, List.mem_cons_self, b.symm⟩
+        · exact Or.inr ⟨k, List.mem_cons_of_mem _ hk, e⟩
+
+theorem SegRun.gen_member {c : Cls} {e : Enc} {h0 : Bytes} {lay layE : Layout} {ordered ds : List Seg}
+    (run : SegRun c e h0 lay ordered layE ds) (j : Nat) (hj : layE.gen[j]? = some true) :
+    lay.gen[j]? = some true ∨ ∃ g ∈ ordered, ∃ idx ∈ g.secs, idx.toNat = j := by
+  induction run with
+  | nil => exact Or.inl hj
+  | @cons layA layB layC g d rest ds' h1 _ ih =>
+    rcases ih hj with a | ⟨g', hg', k, hk, e'⟩
+    · obtain ⟨p, st, s1, w1, rfl, _⟩ := layoutSegment_ok h1
+      obtain ⟨_, e2⟩ := segStartOf_secs s1
+      rcases wsdLoop_gen g.secs w1 j a with b | ⟨k, hk, e'⟩
+      · simp only [e2] at b; exact Or.inl b
+      · exact Or.inr ⟨g, List.mem_cons_self, k, hk, e'⟩
+    · exact Or.inr ⟨g', List.mem_cons_of_mem _ hg', k, hk, e'⟩
+
+/-- under the run's side conditions every finished segment starts at a non-zero offset -/
+theorem SegRun.nonzero {e : Enc} {h0 : Bytes} {lay layE : Layout} {ordered ds : List Seg}
+    (run : SegRun .c64 e h0 lay ordered layE ds) (hok : RunOk e h0 lay ordered) (hz : NoZeroOffset ordered) :
+    NoZeroOffset ds := by
+  induction run with
+  | nil => intro g hg; cases hg
+  | @cons layA layB layC g d rest ds' h1 _ ih =>
+    intro x hx
+    rcases List.mem_cons.1 hx with e' | e'
+    · subst e'
+      obtain ⟨p, st, s1, _, _, ed⟩ := layoutSegment_ok h1
+      obtain ⟨hnz, _⟩ := hok.1 p s1
+      have h0' : lseg_offset0 g.offsetSet g.offset = false := by
+        have := hz g List.mem_cons_self
+        simpa [lseg_offset0] using this
+      have hne : p.2.1 ≠ 0 := hnz h0'
+      obtain ⟨_, _, _, _, f5, f6, _⟩ := segFinish_fields .c64 g p.2.1 st
+      rw [ed, f5, f6]
+      simp only [truncA, Bool.true_and, beq_eq_false_iff_ne, ne_eq]
+      exact hne
+    · exact ih (hok.2 _ _ h1) (fun y hy => hz y (List.mem_cons_of_mem _ hy)) x e'
+
+theorem mapM_ok_self {α} {f : α → M α} {l : List α} (h : ∀ a ∈ l, f a = .ok a) : l.mapM f = .ok l := by
+  induction l with
+  | nil => rfl
+  | cons a rest ih =>
+    simp only [List.mapM_cons, h a List.mem_cons_self, ih (fun b hb => h b (List.mem_cons_of_mem _ hb)), bind,
+      Except.bind, pure, Except.pure]
+
+/-- `saveTail` reads of the object only class, byte order, translation and stream, of the segments
+    only what `putBack` makes of them, and of the layout only what the loose-section pass makes of it -/
+theorem saveTail_congr' {o o' : Obj} {os : OStream} {h0 : Bytes} {segs1 segs1' done done' : List Seg}
+    {lay lay' : Layout}
+    (hc : o'.cls = o.cls) (he : o'.enc = o.enc) (ht : o'.trans = o.trans) (hs : o'.stream = o.stream)
+    (hp : putBack segs1' done' = putBack segs1 done)
+    (hl : layoutLoose o.cls (putBack segs1 done) lay'.secs 0 lay'.pos [] =
+      layoutLoose o.cls (putBack segs1 done) lay.secs 0 lay.pos []) :
+    saveTail o' os h0 segs1' lay' done' = saveTail o os h0 segs1 lay done := by
+  unfold saveTail saveWrite
+  simp only [hc, he, ht, hs, hp, hl]
+
+theorem All2.imp {α β} {R S : α → β → Prop} {l : List α} {l' : List β} (h : All2 R l l')
+    (hrs : ∀ a b, R a b → S a b) : All2 S l l' := by
+  induction h with
+  | nil => exact All2.nil
+  | cons hr _ ih => exact All2.cons (hrs _ _ hr) ih
+
+/-- the side conditions of `save_twice`, evaluated along the layout of the first save: every
+    segment starts at a non-zero file offset, and no address-less NOBITS/empty member sits behind a
+    non-zero alignment gap (`NoGapBeforeAddresslessNobits` of DESIGN.md, `GapBeforeAddresslessNobits`
+    here) -/
+def ResaveOk (o : Obj) (hd : Bytes) : Prop :=
+  ∀ segs1 ordered, (preRes o).segs.mapM (calcSegAlign (preRes o).secs) = .ok segs1 →
+    orderedSegments segs1 = .ok ordered →
+    RunOk o.enc (saveHdr0 (preRes o) hd) (saveLay0 (preRes o) (saveHdr0 (preRes o) hd)) ordered
+
+/-- **save_twice** (ELF64; flat or nested segments, none at file offset 0): if `save` succeeds, and
+    the side conditions `ResaveOk` hold along its layout, then a second `save` of the resulting
+    object into the same initial stream — if it succeeds, which it does unless file offsets wrap
+    around 2^64 — returns *exactly the same result*: same object, same stream, identical bytes.
+    The address-driven branch of `write_segment_data` recomputes, for every member, the cursor
+    position the first pass recorded (`stepCore_resave`); the segment loop, the ordering, the
+    alignment pass, the loose-section pass and the header preparation are idempotent. -/
+theorem save_twice {o : Obj} {os : OStream} {r r2 : SaveRes} {hd : Bytes} (hc : o.cls = .c64)
+    (hh : o.hdr = some hd) (hl : ehdrSize o.cls ≤ hd.length) (hidx : SegIdxOk o.segs) (hz : NoZeroOffset o.segs)
+    (hrs : ResaveOk o hd) (hs : save o os = .ok r) (hok : r.ok = true)
+    (hs2 : save r.obj os = .ok r2) (hok2 : r2.ok = true) : r2 = r := by
+  obtain ⟨hd1, segs1, ordered, lay, done, e1, hf, h1, h2, h3, rfl⟩ := save_ok_unfold hs hok
+  rw [hh] at e1; cases e1
+  obtain ⟨_, eobj, _, _⟩ := saveTail_ok hok
+  generalize ho1 : preRes o = o1 at *
+  have hc1 : o1.cls = .c64 := by rw [← ho1]; exact hc
+  have hcls : o1.cls = o.cls := by rw [← ho1]; rfl
+  have henc : o1.enc = o.enc := by rw [← ho1]; rfl
+  have hsegs : o1.segs = o.segs := by rw [← ho1]; rfl
+  have hset1 : ∀ b ∈ o1.secs, b.Settled := by rw [← ho1]; exact preRes_settled o
+  generalize hh0 : saveHdr0 o1 hd = h0 at *
+  -- the first run
+  obtain ⟨ds, ed, run⟩ := saveFold_run ordered h3
+  simp only [List.nil_append] at ed
+  subst ed
+  rw [hc] at run h3
+  obtain ⟨fsec, _, fseg⟩ := run.frame
+  have hlay0secs : (saveLay0 o1 h0).secs = o1.secs := rfl
+  rw [hlay0secs] at fsec
+  have hsetlay : ∀ b ∈ lay.secs, b.Settled := fsec.forall_right (fun a b h ha => Placed.settled h ha) hset1
+  -- the loose pass of the first save
+  obtain ⟨L, eL, fL⟩ := layoutLoose_frame o1.cls (putBack segs1 done) lay.secs 0 lay.pos []
+  simp only [List.reverse_nil, List.nil_append] at eL
+  rw [hc1] at fL
+  have hsetL : ∀ b ∈ L, b.Settled := fL.forall_right (fun a b h ha => Placed.settled h ha) hsetlay
+  have eS : tailSecs o1 segs1 lay done = L := by
+    unfold tailSecs tailLoose
+    rw [eL, residentForSave_id _ _ _ _ _ hsetL]; rfl
+  have eSt : (residentForSave o1.cls o1.trans (tailLoose o1 segs1 lay done).1 { st := o1.stream } []).2.st = o1.stream := by
+    unfold tailLoose
+    rw [eL, residentForSave_id _ _ _ _ _ hsetL]
+  rw [eS, eSt] at eobj
+  generalize hT : saveTail o1 os h0 segs1 lay done = T at *
+  have ecls : T.obj.cls = o1.cls := by rw [eobj]
+  have eenc : T.obj.enc = o1.enc := by rw [eobj]
+  have etr : T.obj.trans = o1.trans := by rw [eobj]
+  have estr : T.obj.stream = o1.stream := by rw [eobj]
+  have esecs : T.obj.secs = L := by rw [eobj]
+  have esegs : T.obj.segs = putBack segs1 done := by rw [eobj]; rfl
+  have ehdr : T.obj.hdr = some (tailHdr o1 h0 segs1 lay done) := by rw [eobj]
+  have hLlen : L.length = o1.secs.length := fL.1.trans fsec.1
+  -- the second save
+  obtain ⟨hd2, segs2, ordered2, lay2, done2, e2, _, k1, k2, k3, rfl⟩ := save_ok_unfold hs2 hok2
+  rw [ehdr] at e2; cases e2
+  have hpre2 : preRes T.obj = T.obj := preRes_id _ (by rw [esecs]; exact hsetL)
+  rw [hpre2] at k1 k3 ⊢
+  have fa := mapM_ok_frame h1
+  -- header preparation
+  have eh : saveHdr0 T.obj (tailHdr o1 h0 segs1 lay done) = h0 := by
+    rw [saveHdr0_congr ecls eenc (by rw [esegs, putBack_eq_map, List.length_map, fa.1])
+      (by rw [esecs, hLlen])]
+    unfold tailHdr
+    rw [← hh0]
+    exact saveHdr0_idem o1 hd _ (by rw [hcls]; exact hl)
+  rw [eh] at k3 ⊢
+  -- A. the alignment pass is the identity on the finished segments
+  have hidx1 : SegIdxOk segs1 := by
+    intro k g hg
+    have hk : k < o1.segs.length := by
+      rw [← fa.1]
+      rcases Nat.lt_or_ge k segs1.length with hlt | hge
+      · exact hlt
+      · rw [List.getElem?_eq_none hge] at hg; cases hg
+    have := fa.2 k o1.segs[k] g (List.getElem?_eq_getElem hk) hg
+    rw [(calcSegAlign_frame (c := o1.cls) this).1.index]
+    exact hidx k _ (by rw [← hsegs]; exact List.getElem?_eq_getElem hk)
+  have hz1 : NoZeroOffset segs1 := by
+    intro g hg
+    obtain ⟨k, hk⟩ := List.getElem?_of_mem hg
+    have hk' : k < o1.segs.length := by
+      rw [← fa.1]
+      rcases Nat.lt_or_ge k segs1.length with hlt | hge
+      · exact hlt
+      · rw [List.getElem?_eq_none hge] at hk; cases hk
+    have := calcSegAlign_frame (c := o1.cls) (fa.2 k o1.segs[k] g (List.getElem?_eq_getElem hk') hk)
+    rw [this.2.1, this.2.2.2.2]
+    exact hz _ (by rw [← hsegs]; exact List.getElem_mem hk')
+  have hperm := orderedSegments_perm hz1 h2
+  have hpair1 : segs1.Pairwise (fun a b => a.index ≠ b.index) := by
+    rw [List.pairwise_iff_getElem]
+    intro i j hi hj hij e
+    have e1 := hidx1 i _ (List.getElem?_eq_getElem hi)
+    have e2 := hidx1 j _ (List.getElem?_eq_getElem hj)
+    omega
+  have hpairO : ordered.Pairwise (fun a b => a.index ≠ b.index) :=
+    (hperm.pairwise_iff (fun h e => h e.symm)).2 hpair1
+  have hfin := SegRun.finished run
+  have hfinIdx : All2 (fun g d => d.index = g.index) ordered done :=
+    All2.imp hfin (fun g d hr => by
+      obtain ⟨ss, st, e⟩ := hr
+      rw [e]; exact (segFinish_fields _ _ _ _).2.2.2.2.2.2)
+  have hmapO : ordered.map (backFn done) = done := map_backFn_eq hfinIdx hpairO
+  -- the finished version of a segment of `segs1` keeps member list and alignment
+  have hback : ∀ g ∈ segs1, (backFn done g).secs = g.secs ∧ (backFn done g).align = g.align := by
+    intro g hg
+    have hgo : g ∈ ordered := (hperm.mem_iff).2 hg
+    obtain ⟨k, hk⟩ := List.getElem?_of_mem hgo
+    have hk' : k < ordered.length := by
+      rcases Nat.lt_or_ge k ordered.length with hlt | hge
+      · exact hlt
+      · rw [List.getElem?_eq_none hge] at hk; cases hk
+    have hkd : k < done.length := by rw [(All2.getElem? hfin).1]; exact hk'
+    have e : backFn done g = done[k] := by
+      have := congrArg (fun l => l[k]?) hmapO
+      simp only [List.getElem?_map, hk, Option.map_some, List.getElem?_eq_getElem hkd, Option.some.injEq] at this
+      exact this
+    obtain ⟨ss, st, ef⟩ := (All2.getElem? hfin).2 k g _ hk (List.getElem?_eq_getElem hkd)
+    rw [e, ef]
+    exact ⟨(segFinish_fields _ _ _ _).2.1, (segFinish_fields _ _ _ _).2.2.1⟩
+  have eq1 : segs2 = putBack segs1 done := by
+    rw [esegs, esecs] at k1
+    have : (putBack segs1 done).mapM (calcSegAlign L) = .ok (putBack segs1 done) := by
+      apply mapM_ok_self
+      intro g2 hg2
+      rw [putBack_eq_map] at hg2
+      obtain ⟨g, hg, rfl⟩ := List.mem_map.1 hg2
+      obtain ⟨bs, ba⟩ := hback g hg
+      apply calcSegAlign_fix
+      intro idx hi
+      rw [bs] at hi
+      -- `g` came out of the alignment pass over `o1.secs`
+      obtain ⟨k, hk⟩ := List.getElem?_of_mem hg
+      have hk' : k < o1.segs.length := by
+        rw [← fa.1]
+        rcases Nat.lt_or_ge k segs1.length with hlt | hge
+        · exact hlt
+        · rw [List.getElem?_eq_none hge] at hk; cases hk
+      have hca := fa.2 k o1.segs[k] g (List.getElem?_eq_getElem hk') hk
+      have hsecs := (calcSegAlign_frame (c := o1.cls) hca).1.secs
+      obtain ⟨s, hs0, hle⟩ := calcSegAlign_ge hca idx (by rw [← hsecs]; exact hi)
+      -- the section's alignment is not changed by the placement
+      have hiL : idx.toNat < L.length := by
+        rw [hLlen]
+        rcases Nat.lt_or_ge idx.toNat o1.secs.length with hlt | hge
+        · exact hlt
+        · rw [List.getElem?_eq_none hge] at hs0; cases hs0
+      have hpl : Placed .c64 s L[idx.toNat] :=
+        (FrameL.trans (R := Placed .c64) (fun _ _ _ => Placed.trans) fsec fL).2 _ _ _ hs0
+          (List.getElem?_eq_getElem hiL)
+      refine ⟨L[idx.toNat], List.getElem?_eq_getElem hiL, ?_⟩
+      rw [ba, hpl.frame.rest]; exact hle
+    rw [this] at k1; cases k1; rfl
+  subst eq1
+  -- B. the order of the finished segments
+  have hz2 : NoZeroOffset (segs1.map (backFn done)) := by
+    have hnzd : NoZeroOffset done :=
+      SegRun.nonzero run (by
+        have := hrs segs1 ordered (by rw [ho1]; exact h1) h2
+        rw [ho1, hh0] at this; exact this) (fun g hg => hz1 g ((hperm.mem_iff).1 hg))
+    intro g2 hg2
+    obtain ⟨g, hg, rfl⟩ := List.mem_map.1 hg2
+    unfold backFn
+    cases hfd : done.find? (fun d => d.index == g.index) with
+    | none => exact hz1 g hg
+    | some d => exact hnzd d (List.mem_of_find?_eq_some hfd)
+  have eq2 : ordered2 = done := by
+    rw [putBack_eq_map] at k2
+    rw [orderedSegments_map (backFn done) (fun g hg => (hback g hg).1) hz1 hz2 h2, hmapO] at k2
+    cases k2; rfl
+  subst eq2
+  -- C. the segment loop, in step
+  rw [ecls, eenc, hc1, henc] at k3
+  have hlk0 : LockL L (saveLay0 o1 h0) (saveLay0 T.obj h0) := by
+    refine ⟨esecs, ?_, ?_⟩
+    · show savePos0 T.obj h0 = savePos0 o1 h0
+      unfold savePos0; rw [ecls, eenc]
+    · show List.replicate (T.obj.secs.length % 65536) false = List.replicate (o1.secs.length % 65536) false
+      rw [esecs, hLlen]
+  have hFL : FutL L lay := by
+    refine ⟨fL.1, fun i hi => ?_⟩
+    -- a generated index is a member of a finished segment
+    have hmem : withoutSegment (putBack segs1 ordered2) i = false := by
+      rcases SegRun.gen_member run i hi with h0g | ⟨g, hg, idx, hidxm, e⟩
+      · have : (List.replicate (o1.secs.length % 65536) false)[i]? = some true := h0g
+        rw [List.getElem?_replicate] at this
+        split at this <;> cases this
+      · have hg1 : g ∈ segs1 := (hperm.mem_iff).1 hg
+        unfold withoutSegment
+        simp only [Bool.not_eq_false', List.any_eq_true]
+        refine ⟨backFn ordered2 g, ?_, idx, by rw [(hback g hg1).1]; exact hidxm, by simpa using e⟩
+        rw [putBack_eq_map]; exact List.mem_map_of_mem hg1
+    have : L = (looseSpec o1.cls (putBack segs1 ordered2) lay.secs 0 lay.pos).1 := by
+      rw [← eL, layoutLoose_eq]; rfl
+    rw [this, looseSpec_getElem?_member _ _ _ 0 _ i (by rw [Nat.zero_add]; exact hmem)]
+  have hrun := segRun_resave run hFL (by
+      have := hrs segs1 ordered (by rw [ho1]; exact h1) h2
+      rw [ho1, hh0] at this; exact this) hlk0 k3
+  obtain ⟨lkE, edone⟩ := hrun
+  simp only [List.nil_append] at edone
+  subst edone
+  -- D. the tail
+  congr 1
+  refine (saveTail_congr' ecls eenc etr estr (putBack_idem segs1 done2) ?_).trans hT
+  rw [lkE.secs, lkE.pos, layoutLoose_eq, layoutLoose_eq]
+  have eL' : L = (looseSpec o1.cls (putBack segs1 done2) lay.secs 0 lay.pos).1 := by
+    rw [← eL, layoutLoose_eq]; rfl
+  rw [eL', looseSpec_idem]
+
+/-- the byte-level reading of `save_twice` -/
+theorem save_idempotent_on_settled {o : Obj} {os : OStream} {r r2 : SaveRes} {hd : Bytes} (hc : o.cls = .c64)
+    (hh : o.hdr = some hd) (hl : ehdrSize o.cls ≤ hd.length) (hidx : SegIdxOk o.segs) (hz : NoZeroOffset o.segs)
+    (hrs : ResaveOk o hd) (hs : save o os = .ok r) (hok : r.ok = true)
+    (hs2 : save r.obj os = .ok r2) (hok2 : r2.ok = true) :
+    r2.os.content = r.os.content ∧ r2.obj = r.obj := by
+  rw [save_twice hc hh hl hidx hz hrs hs hok hs2 hok2]; exact ⟨rfl, rfl⟩
+
+/-- sanity (by evaluation): the F13 object with the `.bss` member given an explicit address — so that
+    it is no longer an address-less NOBITS member behind a gap — saves twice to identical bytes -/
+def f13FixedObj : M Obj := do
+  let o ← f13Obj
+  pure (updSec o 3 fun b => { b with addr := 0x400010, addrSet := true })
+
+def sameTwice (mo : M Obj) : Bool :=
+  match mo with
+  | .error _ => false
+  | .ok o =>
+    match save o {} with
+    | .error _ => false
+    | .ok r1 =>
+      match save r1.obj {} with
+      | .error _ => false
+      | .ok r2 => r1.ok && r2.ok && (r1.os.content == r2.os.content)
+
+example : sameTwice f13FixedObj = true := by decide +kernel
+example : sameTwice f13Obj = false := by decide +kernel
+
 end ElfioVerif.C06
